@@ -68,6 +68,7 @@ type Safety struct {
 	replies  map[string][]replyRec
 	confs    map[string]*ConfInfo
 	confHist map[string][]*ConfInfo
+	confTimes map[string][]confAt
 	grants   map[string]map[string]bool // "candidate/term" -> voters whose granted real vote reached it
 	pendingElect []electRec
 
@@ -82,6 +83,12 @@ type Safety struct {
 type recvFile struct {
 	file        int
 	index, term uint64
+}
+
+type confAt struct {
+	vt     int64
+	voters int
+	conf   *ConfInfo
 }
 
 type electRec struct {
@@ -154,7 +161,7 @@ func NewSafety() *Safety {
 		fsmSeq: map[int][]uint64{}, fsmRestored: map[int]bool{},
 		leaderByTerm: map[uint64]string{}, leaderSeq: map[uint64]int{}, rpcLeaderByTerm: map[uint64]string{}, ledFirst: map[string]bool{},
 		votes: map[string]map[uint64]string{}, persisted: map[string][2]any{}, maxTerm: map[string]uint64{}, termAtDel: map[int]uint64{}, lastAtDel: map[int][2]uint64{},
-		sets: map[string][]setRec{}, delSeq: map[int]int{}, replies: map[string][]replyRec{}, confs: map[string]*ConfInfo{}, confHist: map[string][]*ConfInfo{}, grants: map[string]map[string]bool{},
+		sets: map[string][]setRec{}, delSeq: map[int]int{}, replies: map[string][]replyRec{}, confs: map[string]*ConfInfo{}, confHist: map[string][]*ConfInfo{}, confTimes: map[string][]confAt{}, grants: map[string]map[string]bool{},
 		rvReal: map[string]int{}, rvPre: map[string]int{}, incStatus: map[string]StatusInfo{},
 		openRecv: map[string]*recvFile{}, mixedFiles: map[int]string{}, inflightIS: map[string]map[int]*MsgInfo{},
 		lastStatus: map[string]StatusInfo{}, memberPending: map[int]*memberReq{}, memberAwaitAppend: map[string]int{},
@@ -257,6 +264,13 @@ func (s *Safety) On(e *Event) []Violation {
 	case "conf":
 		s.confs[e.Node] = e.Conf
 		s.confHist[e.Node] = append(s.confHist[e.Node], e.Conf)
+		nv := 0
+		for _, v := range e.Conf.Members {
+			if v {
+				nv++
+			}
+		}
+		s.confTimes[e.Node] = append(s.confTimes[e.Node], confAt{e.VT, nv, e.Conf})
 	case "reply":
 		if e.Msg.Kind == "AE" || e.Msg.Kind == "IS" {
 			s.replies[e.Node] = append(s.replies[e.Node], replyRec{e.VT, e.Msg.Dst})
@@ -653,11 +667,34 @@ func (s *Safety) onApply(e *Event) {
 				}
 			}
 		}
-		if cf != nil && voters > 1 {
+		// the configurations this node held during the preceding lease duration (as observed; one
+		// older observation is included because observations lag the change): a node that was the
+		// only voter of one of them renewed its lease on its own, legitimately, and a reply counts if
+		// its sender was a voter in any of them (the configuration may have changed since)
+		alone := false
+		wasVoter := map[string]bool{}
+		cts := s.confTimes[e.Node]
+		older := 0
+		for k := len(cts) - 1; k >= 0; k-- {
+			if cts[k].voters <= 1 {
+				alone = true
+			}
+			for id, v := range cts[k].conf.Members {
+				if v {
+					wasVoter[id] = true
+				}
+			}
+			if cts[k].vt <= e.VT-s.ld {
+				if older++; older == 2 {
+					break
+				}
+			}
+		}
+		if cf != nil && voters > 1 && !alone {
 			fresh := false
 			rs := s.replies[e.Node]
 			for k := len(rs) - 1; k >= 0 && rs[k].vt > e.VT-s.ld; k-- {
-				if cf.Members[rs[k].from] {
+				if cf.Members[rs[k].from] || wasVoter[rs[k].from] {
 					fresh = true
 					break
 				}
